@@ -1,6 +1,8 @@
 //! Shared harness utilities: process isolation, synthetic code arenas, instruction decoders and
 //! abstract machines (the independent oracles), evidence helpers.  Depends on nothing of the
 //! crate under verification.
+pub mod a32;
+pub mod a64;
 pub mod arena;
 pub mod flush;
 pub mod isolate;
